@@ -57,6 +57,14 @@ func (c *Ctx) scanObligations(prop string) ([]*Obligation, map[string]interface{
 		out = append(out, ob)
 		info["callers "+d.Callee] = cinfo
 	}
+	for _, d := range c.cf.CycleGuards {
+		if d.Prop != prop {
+			continue
+		}
+		obs, cinfo := c.scanCycleGuard(d)
+		out = append(out, obs...)
+		info["cycleguard "+d.Method] = cinfo
+	}
 	for _, d := range c.cf.FieldsClosed {
 		if d.Prop != prop {
 			continue
@@ -1223,6 +1231,106 @@ func (c *Ctx) scanGlobalState(d GlobalStateDirective) ([]*Obligation, string) {
 	ob := &Obligation{Name: "global.state#closed", Kind: "global.state", Fn: "package", Props: []string{d.Prop}, Backend: "ssa-scan", Status: "ok"}
 	out = append(out, ob)
 	return out, fmt.Sprintf("%d package-level variables can change after initialisation, all on the accepted list: %v", len(listed), listed)
+}
+
+// scanCycleGuard: recursion over script-made data terminates.
+// Directive:  //@ cycleguard Cxx Method | GuardFn | MarkFn | acyclic impl, ...
+// Every function of the package named Method (an implementation of the traversal, e.g. the
+// printer SexpString) that calls Method again through an interface recurses into values it
+// contains. Scripts can make mutable containers contain themselves, so such an implementation
+// must (a) ask the traversal memory (a static call of GuardFn that dominates every recursive call)
+// and (b) enter itself into it (a static call of MarkFn dominating them too) -- or be on the
+// directive's list of implementations whose containers cannot be made cyclic by a script.
+// A new recursive implementation fails until it is guarded or classified.
+func (c *Ctx) scanCycleGuard(d CycleGuardDirective) ([]*Obligation, string) {
+	acyclic := map[string]bool{}
+	for _, a := range d.Acyclic {
+		acyclic[a] = true
+	}
+	var names []string
+	for n := range c.funcs {
+		names = append(names, n)
+	}
+	sort.Strings(names)
+	var out []*Obligation
+	nrec, nguard := 0, 0
+	for _, name := range names {
+		fn := c.funcs[name]
+		if fn.Blocks == nil || fn.Name() != d.Method || fn.Signature.Recv() == nil {
+			continue
+		}
+		var rec []ssa.Instruction
+		var guards, marks []ssa.Instruction
+		for _, b := range fn.Blocks {
+			for _, in := range b.Instrs {
+				ci, ok := in.(ssa.CallInstruction)
+				if !ok {
+					continue
+				}
+				cc := ci.Common()
+				if cc.IsInvoke() && cc.Method.Name() == d.Method {
+					rec = append(rec, in)
+				}
+				if f := cc.StaticCallee(); f != nil {
+					switch f.RelString(c.tpkg) {
+					case d.Guard:
+						guards = append(guards, in)
+					case d.Mark:
+						marks = append(marks, in)
+					}
+					if f.Name() == d.Method && f != fn && f.Signature.Recv() != nil {
+						// a static call of another implementation: that one is checked itself
+						_ = f
+					}
+				}
+			}
+		}
+		if len(rec) == 0 {
+			continue
+		}
+		nrec++
+		ob := &Obligation{Name: name + "#cycle.guard", Kind: "cycle.guard", Fn: name, Props: []string{d.Prop}, Backend: "ssa-scan", Status: "ok", Pos: c.posStr(fn.Pos())}
+		if acyclic[name] {
+			out = append(out, ob)
+			continue
+		}
+		dominated := func(by []ssa.Instruction, in ssa.Instruction) bool {
+			for _, g := range by {
+				if g.Block() == in.Block() {
+					for _, x := range g.Block().Instrs {
+						if x == g {
+							return true
+						}
+						if x == in {
+							break
+						}
+					}
+					continue
+				}
+				if g.Block().Dominates(in.Block()) {
+					return true
+				}
+			}
+			return false
+		}
+		var bad []string
+		for _, r := range rec {
+			if !dominated(guards, r) {
+				bad = append(bad, fmt.Sprintf("recursive %s at %s is not preceded by %s", d.Method, c.posStr(r.Pos()), d.Guard))
+			} else if !dominated(marks, r) {
+				bad = append(bad, fmt.Sprintf("recursive %s at %s is not preceded by %s", d.Method, c.posStr(r.Pos()), d.Mark))
+			}
+		}
+		if len(bad) > 0 {
+			ob.Status = "failed"
+			sort.Strings(bad)
+			ob.Model = "recursion into contained values without consulting the traversal memory (a script can make the container contain itself; the recursion then exhausts the stack, which kills the process): " + strings.Join(bad, "; ")
+		} else {
+			nguard++
+		}
+		out = append(out, ob)
+	}
+	return out, fmt.Sprintf("%d implementations of %s recurse into contained values, %d guarded by %s/%s, the rest classified acyclic", nrec, d.Method, nguard, d.Guard, d.Mark)
 }
 
 // scanCallers: a call funnel.  Directive:  //@ callers Cxx Callee | caller, caller, ...
